@@ -103,6 +103,7 @@ thread_local! {
 pub fn quiet_panics() {
     std::panic::set_hook(Box::new(|info| {
         let loc = info.location().map(|l| format!("{}:{}", l.file(), l.line()));
+        if std::env::var("VH_PANIC_VERBOSE").is_ok() { eprintln!("panic: {}", info); }
         LAST_PANIC_LOC.with(|c| *c.borrow_mut() = loc);
     }));
 }
